@@ -254,6 +254,13 @@ func VerifyFuncX(P *Program, DB *ContractDB, fc *FuncContract, safety bool, excu
 			kind = "range (map)"
 		}
 		res.Notes = append(res.Notes, fmt.Sprintf("loop %d: %s, %s", li.ordinal, kind, P.Prog.Fset.Position(blockPos(li.header))))
+		if kind == "for" {
+			if fc.Decreases[li.ordinal] != nil {
+				res.Trusted = append(res.Trusted, fmt.Sprintf("termination proved with a variant: %s loop %d", fc.Key, li.ordinal))
+			} else {
+				res.Trusted = append(res.Trusted, fmt.Sprintf("termination not claimed (for loop without a variant): %s loop %d", fc.Key, li.ordinal))
+			}
+		}
 	}
 	sort.Strings(res.Notes)
 	for n := range t.trusted {
